@@ -47,6 +47,7 @@ Why(ev) ==
   ELSE IF ev.ver_intact # 1 \/ ev.dec_intact # 1 THEN <<"an operation modified its input file">>
   ELSE IF ev.ver_outlen # 0 THEN <<"verification wrote output">>
   ELSE IF ev.ver_ret # ev.dec_ret THEN <<"verification and decryption disagree", ev.ver_ret, ev.dec_ret>>
+  ELSE IF ev.decp_ret # ev.dec_ret \/ ev.decp_same # 1 THEN <<"decryption into a non-seekable output (pipe) differs from decryption into a file: verdict / length", ev.decp_ret, ev.decp_len, "instead of", ev.dec_ret, Len(ev.D)>>
   ELSE IF ev.dec_ret = 0 /\ ev.D # <<>> THEN <<"a failing decryption wrote output bytes", Len(ev.D)>>
   ELSE IF ev.cls = "retag" THEN <<"ok">>      \* re-tagged with the key: outside the authenticity oracle; only the verify<=>decrypt, output and input conditions above apply
   ELSE IF ev.dec_ret = 1 /\ ~IdealAccept(ev) THEN <<"accepted although not authentic (or wrong key)">>
